@@ -36,6 +36,7 @@ type PlantSpec struct {
 	Theta  int    `json:"theta"`
 	MaxRpm int    `json:"maxRpm"`
 	MaxEff int    `json:"maxEff,omitempty"`
+	Const  int    `json:"const,omitempty"`
 }
 
 type MapSpec struct {
@@ -175,7 +176,7 @@ func buildWorld(ctx *Ctx, sc *Scenario) *World {
 			v.SetModeRaw(sc.InitMode)
 		}
 		if v.Plant != nil {
-			v.Plant.Kind, v.Plant.Theta, v.Plant.MaxRpm, v.Plant.MaxEff = sc.Plant.Kind, sc.Plant.Theta, sc.Plant.MaxRpm, sc.Plant.MaxEff
+			v.Plant.Kind, v.Plant.Theta, v.Plant.MaxRpm, v.Plant.MaxEff, v.Plant.Const = sc.Plant.Kind, sc.Plant.Theta, sc.Plant.MaxRpm, sc.Plant.MaxEff, sc.Plant.Const
 			if sc.Fan.Kind == "file" {
 				v.Plant.EnablePath = ""
 			} else if sc.Fan.HasEnable {
@@ -232,7 +233,7 @@ func buildWorld(ctx *Ctx, sc *Scenario) *World {
 		s := &SimFan{Id: id, CurveId: w.Curve.Id, NeverStop: sc.Fan.NeverStop, Min: sc.Fan.SimMin, Max: sc.Fan.SimMax,
 			Start: sc.Fan.SimMin, HasPwm: sc.Fan.HasPwm, HasRpm: sc.Fan.HasRpm, HasMode: sc.Fan.HasEnable,
 			PwmVal: sc.InitPwm, ModeVal: sc.InitMode}
-		plant := &util.VerifPlant{Kind: sc.Plant.Kind, Theta: sc.Plant.Theta, MaxRpm: sc.Plant.MaxRpm, MaxEff: sc.Plant.MaxEff}
+		plant := &util.VerifPlant{Kind: sc.Plant.Kind, Theta: sc.Plant.Theta, MaxRpm: sc.Plant.MaxRpm, MaxEff: sc.Plant.MaxEff, Const: sc.Plant.Const}
 		s.RpmFn = plant.Rpm
 		w.Sim = s
 		w.Fan = s
